@@ -444,7 +444,13 @@ func (c *countingByteReader) ReadByte() (byte, error) {
 
 // decodeBody decodes by Content-Encoding; the body must be exactly one encoded stream
 // (a truncated stream or bytes after its end are a decoding failure).
-func decodeBody(ce string, raw []byte) ([]byte, bool) {
+func decodeBody(ce string, raw []byte) (out []byte, ok bool) {
+	defer func() {
+		// the brotli reader panics on some malformed inputs (bytes after the end of a stream)
+		if p := recover(); p != nil {
+			out, ok = nil, false
+		}
+	}()
 	switch strings.ToLower(strings.TrimSpace(ce)) {
 	case "", "identity":
 		return raw, true
